@@ -441,9 +441,6 @@ func defaultsMap() map[string]string {
 	sort.Strings(keys)
 	d.ev = []interface{}{}
 	for _, k := range keys {
-		if !usableKey(k) {
-			panic("the environment names the library's default key " + k)
-		}
 		v := conf.GetValue(k)
 		d.m[k] = v
 		d.ev = append(d.ev, []core.Bytes{core.Str(k), core.Str(v)})
